@@ -12,7 +12,7 @@ import (
 
 func init() {
 	Register(&Scenario{
-		Prop: "C09", Run: scenarioC09, QuickRuns: 1600, ThoroughRuns: 40000, Level: "exploration",
+		Prop: "C09", Run: scenarioC09, QuickRuns: 4800, ThoroughRuns: 120000, Level: "exploration",
 		Rule:       "one run = a seeded world with a positive fitness landscape turned over for 1..N epochs; every epoch is observed before the turnover (raw fitness, membership, ages), at the 'epoch.prepared' observation point (adjusted fitness, expected offspring, quotas after stealing / delta coding, parents left after culling) and at the first speciation (number of babies); the apportionment oracle recomputes expectations, the carried-floor prefix sums, the total and the parent cut-off. A case is one epoch; non-trivial when it had >= 2 species; distinct by (species count, quota vector hash, rare-path flags)",
 		RealParts:  []string{"Species.adjustFitness / countOffspring, Population.purgeZeroOffspringSpecies / giveBabiesToTheBest / deltaCoding / purgeOrganisms, both epoch executors"},
 		StubParts:  []string{"fitness assignment (seeded landscape with at least one positive value)", "goroutine choice in parallel worlds"},
@@ -20,7 +20,7 @@ func init() {
 		ProbeNames: []string{"probe.multi_species_epoch", "probe.makeup_offspring", "probe.delta_coding", "probe.stolen_babies", "probe.zero_quota_species", "probe.stagnant_species_penalised", "probe.young_species_boost", "probe.culling_removed_parents"},
 	})
 	Register(&Scenario{
-		Prop: "C10", Run: scenarioC10, QuickRuns: 1600, ThoroughRuns: 40000, Level: "exploration",
+		Prop: "C10", Run: scenarioC10, QuickRuns: 4800, ThoroughRuns: 120000, Level: "exploration",
 		Rule:       "one run = a seeded world with distinct positive fitness values turned over for 1..N epochs (long enough for champions to carry disabled, recurrent and re-enabled genes; with and without stolen babies and delta coding); for every species whose final quota exceeds five the next generation must contain a genome whose canonical dump (without the id) equals the pre-epoch dump of the species' fittest organism. A case is one (epoch, species with quota > 5); non-trivial when the champion carries a hidden node, a disabled or a recurrent gene; distinct by champion shape hash",
 		RealParts:  []string{"Species.reproduce champion-clone and super-champion branches, Genome.duplicate, both epoch executors (the parallel one encodes and decodes every baby)"},
 		StubParts:  []string{"fitness assignment", "goroutine choice in parallel worlds"},
